@@ -63,15 +63,21 @@ impl Frame {
 
         let msg_id = Self::get_message_id(crs)?;
 
-        if FromPrimitive::from_u8(msg_id) != Some(MsgId::HandshakeId) && length > MAX_FRAME_SIZE {
+        // Handshake has no length prefix and no ID: it is recognized by its first byte (protocol name
+        // length) and by the byte of protocol name that lies at message ID position. The latter alone
+        // is an ordinary (unknown) message ID.
+        let protocol_id_length = Self::get_protocol_id_length(crs)?;
+        let is_handshake = FromPrimitive::from_u8(msg_id) == Some(MsgId::HandshakeId)
+            && protocol_id_length == Handshake::PROTOCOL_ID.len();
+
+        if !is_handshake && length > MAX_FRAME_SIZE {
             return Err(Error::MsgToLarge);
         }
 
-        let protocol_id_length = Self::get_protocol_id_length(crs)?;
         let available_data = Self::available_data(crs);
 
         match FromPrimitive::from_u8(msg_id) {
-            Some(MsgId::HandshakeId) => {
+            Some(MsgId::HandshakeId) if is_handshake => {
                 crs.set_position(Handshake::check(crs, protocol_id_length, available_data)? as u64);
                 Ok(Frame::Handshake(Handshake::from(crs)))
             }
@@ -111,7 +117,7 @@ impl Frame {
                 crs.set_position(Cancel::check(available_data, length)? as u64);
                 Ok(Frame::Cancel(Cancel::from(crs)))
             }
-            None => {
+            _ => {
                 // To skip unknown message (only when it is complete, otherwise wait for the rest)
                 if available_data < MSG_LEN_SIZE + length {
                     return Err(Error::Incomplete("Unknown message"));
